@@ -91,3 +91,56 @@ def run(d, paths, cfg, trace=False, **kw):
         for f in sorted(tdir.iterdir()):
             o.trace.append([json.loads(l) for l in f.read_text().splitlines() if l.strip()])
     return o
+
+
+def run_direct(d, paths, spec, use_buffer_dir=False):
+    """second driver: call run_type_assignment_on_h5ad directly (the orchestration of run_mapping -
+    reading the tree, flatten/drop, marker cache - is replicated with the library's own public functions).
+    With use_buffer_dir=False results travel through the multiprocessing.Manager list (completion order).
+    returns (results or None, error or None)"""
+    import h5py
+    import numpy as np
+    import pathlib
+    from cell_type_mapper.taxonomy.taxonomy_tree import TaxonomyTree
+    from cell_type_mapper.type_assignment.marker_cache_v2 import create_marker_cache_from_specified_markers
+    from cell_type_mapper.type_assignment.election_runner import run_type_assignment_on_h5ad
+    cfg = spec['cfg']
+    d = pathlib.Path(d)
+    try:
+        with quiet():
+            with h5py.File(paths['stats'], 'r') as f:
+                tree = TaxonomyTree.from_str(serialized_dict=f['taxonomy_tree'][()].decode('utf-8'))
+                ref_genes = json.loads(f['col_names'][()].decode('utf-8'))
+            lookup = json.load(open(paths['markers']))
+            if cfg.get('drop_level') is not None and cfg['drop_level'] in tree.hierarchy:
+                tree = tree.drop_level(cfg['drop_level'])
+            if cfg.get('flatten'):
+                tree = tree.flatten()
+                allm = set()
+                for k in lookup:
+                    allm |= set(lookup[k])
+                lookup = {'None': sorted(allm)}
+            cache = d / 'direct_marker_cache.h5'
+            create_marker_cache_from_specified_markers(
+                marker_lookup=lookup, reference_gene_names=ref_genes,
+                query_gene_names=list(spec['query']['genes']), output_cache_path=cache,
+                taxonomy_tree=tree, min_markers=cfg['min_markers'])
+            tmp = d / 'direct_tmp'
+            tmp.mkdir(exist_ok=True)
+            buf = None
+            if use_buffer_dir:
+                buf = d / 'direct_buffer'
+                buf.mkdir(exist_ok=True)
+            lk = {lv: cfg['bootstrap_factor'] for lv in tree.hierarchy[:-1]}
+            lk['None'] = cfg['bootstrap_factor']
+            res = run_type_assignment_on_h5ad(
+                query_h5ad_path=paths['query'], precomputed_stats_path=paths['stats'],
+                marker_gene_cache_path=cache, taxonomy_tree=tree,
+                n_processors=cfg['n_processors'], chunk_size=cfg['chunk_size'],
+                bootstrap_factor_lookup=lk, bootstrap_iteration=cfg['bootstrap_iteration'],
+                rng=np.random.default_rng(cfg['rng_seed']), n_assignments=cfg['n_runners_up'] + 1,
+                normalization=cfg.get('normalization', 'raw'), tmp_dir=str(tmp), log=None,
+                max_gb=cfg.get('max_gb', 1.0), results_output_path=str(buf) if buf else None)
+        return res, None
+    except Exception as e:
+        return None, e
